@@ -427,7 +427,7 @@ func (x *Exec) externInvoke(f *frame, in ssa.Instruction, c *ssa.CallCommon, arg
 		return v, true
 	}
 	switch {
-	case strings.Contains(name, "grpclog.") && (strings.HasSuffix(name, ".V") || strings.Contains(name, ".Info") || strings.Contains(name, ".Warning") || strings.Contains(name, ".Error")):
+	case (strings.Contains(name, "grpclog.") || strings.Contains(name, "grpclog/internal.")) && (strings.HasSuffix(name, ".V") || strings.Contains(name, ".Info") || strings.Contains(name, ".Warning") || strings.Contains(name, ".Error")):
 		x.assumed["extern "+name+": no effect on modelled state (logging)"] = true
 		return x.resultVal(f.st, c.Signature(), "log"), true
 	case name == "(context.Context).Value" || name == "(context.Context).Err" || name == "(context.Context).Done" || name == "(context.Context).Deadline":
